@@ -62,6 +62,37 @@ def check(ctx):
                    f'when {meth} returns {truth}: ' + ' and '.join(what) + (' -- a refused hand-over leaves a stale entry' if not truth else ''),
                    node=last[-1] if last else None, file=c.mod.path, path=res.path_lines(ex, st))
     give_contract(ctx, collect_c08=collect)
+    # the history of a part starts with its source: the generated part is initialised with the environment and records the source
+    if P.has_cls('Source'):
+        from ..state import Analysis as _An2, State as _St2
+        cS = P.cls('Source')
+        gS = ctx.graph(cS, '_finish_cycle')
+
+        def shook(an_, n, before, after):
+            st = after
+            for cl in calls_at(gS, n):
+                if isinstance(cl.func, ast.Attribute) and an_.ev(cl.func.value, before, n.frame) == 'new':
+                    if call_attr(cl) == 'initialize':
+                        st = st.with_flag('part-initialised' if len(cl.args) == 1 and ast.unparse(cl.args[0]) in ('self._env', 'self.env') else 'part-initialised-wrong')
+                    if call_attr(cl) == 'add_routing_history':
+                        st = st.with_flag('source-recorded' if [ast.unparse(a_) for a_ in cl.args] == ['self'] else 'source-recorded-wrong')
+            return st
+        anS = _An2(P, gS, ['_output', '_part', '_is_shut_down'], call_models={'generate_part': 'new'})
+        anS.node_hooks.append(shook)
+        resS = ctx.explore(anS, [_St2({'_output': 'N', '_part': 'N', '_is_shut_down': 'F'})])
+        o.require(resS.exits(), 'Source._finish_cycle has no normal exit')
+        made = 0
+        for st in resS.exits():
+            o.count()
+            if st.fields.get('_output') == 'new':
+                made += 1
+                o.witness('source-first')
+                fl = {f for f in st.flags if f.startswith(('part-', 'source-'))}
+                if fl != {'part-initialised', 'source-recorded'}:
+                    o.fail(P, 'Source._finish_cycle', 'self._output.initialize(self._env); self._output.add_routing_history(self)',
+                           f'a newly generated part is {sorted(fl) or "neither initialised nor recorded"}: every part must be initialised with the environment and its routing history must start with its source',
+                           file=cS.mod.path, line=P.method(cS, '_finish_cycle')[1].lineno, path=resS.path_lines(gS.exit, st))
+        o.require(made >= 1, 'Source._finish_cycle: no path on which a part is generated')
     # what is recorded is the device itself
     for s in inv.method_calls(P, 'add_routing_history'):
         o.count()
